@@ -155,3 +155,23 @@ Theorem C05_keltner_definition :
     (0 <= mult -> 0 <= an -> en - mult * an <= en <= en + mult * an).
 Proof. exact kc_structure. Qed.
 Print Assumptions C05_keltner_definition.
+
+From Flocq Require Import Core.
+From Hexital Require Import Spec.Steppers Proofs.SpecReal Proofs.HlaSpec.
+(* High-Low average: the reading is the midpoint of the candle's high and low rounded to round_value
+   decimals (within half a unit of the last decimal), and lies between low and high when those are on
+   the rounding grid *)
+Theorem C05_hla_is_rounded_midpoint :
+  forall (nd : Z) (s : state ROps) (c : inp ROps),
+  hla_step ROps nd s c = Ok (@VNum ROps (rnd10 nd ((x_h ROps c + x_l ROps c) / 2)), s) /\
+  Rabs (rnd10 nd ((x_h ROps c + x_l ROps c) / 2) - (x_h ROps c + x_l ROps c) / 2) <= eps nd.
+Proof. exact hla_is_rounded_midpoint. Qed.
+Print Assumptions C05_hla_is_rounded_midpoint.
+
+Theorem C05_hla_between_low_and_high :
+  forall (nd : Z) (s : state ROps) (c : inp ROps),
+  generic_format radix10 (FIX_exp (- nd)) (x_l ROps c) -> generic_format radix10 (FIX_exp (- nd)) (x_h ROps c) ->
+  x_l ROps c <= x_h ROps c ->
+  exists r, hla_step ROps nd s c = Ok (@VNum ROps r, s) /\ x_l ROps c <= r <= x_h ROps c.
+Proof. exact hla_between_low_and_high. Qed.
+Print Assumptions C05_hla_between_low_and_high.
